@@ -99,7 +99,7 @@ def program_strategy(draw, tier="quick", procs=True, futures=True, combinators=T
         "cancel": st.lists(st.integers(0, 2), max_size=1 if cancels else 0),
         # stash: keep the received Event object (as a queue keeps a payload); flush: re-emit every held object, re-stamped to now.
         # Only understood by RealRun (not by the reference interpreter), so only metamorphic checks (C04) switch it on.
-        **({"stash": st.sampled_from([False, False, False, True]), "flush": st.sampled_from([False, False, False, True])} if stash else {}),
+        **({"stash": st.sampled_from([False, True]), "flush": st.sampled_from([False, True, True])} if stash else {}),
     })
     if procs:
         hk = emit_strategy(n, False, dts, jitter, 0) if hooks else None
